@@ -247,9 +247,26 @@ impl G {
                 out.push(("asPoly".into(), G::Polygon(t.to_polygon())));
                 out.push(("rot".into(), G::Triangle(Triangle::new(t.1, t.2, t.0))));
                 out.push(("flip".into(), G::Triangle(Triangle::new(t.0, t.2, t.1))));
+                // Triangle::new reorders to counter-clockwise; the tuple constructor and From<[_; 3]> keep the order given,
+                // so the same point set can also be stored clockwise
+                out.push(("rawflip".into(), G::Triangle(Triangle(t.0, t.2, t.1))));
+                out.push(("rawrev".into(), G::Triangle(Triangle::from([t.2, t.1, t.0]))));
+                out.push(("rawrot".into(), G::Triangle(Triangle::from([t.1, t.2, t.0]))));
             }
             G::GeometryCollection(gc) => {
                 out.push(("rev".into(), G::GeometryCollection(GeometryCollection::new_from(gc.0.iter().rev().cloned().collect()))));
+                // members written another way: triangles stored clockwise, rectangles from the opposite corners, rings turned
+                fn respell(g: &Geometry<f64>, pv: &dyn Fn(&Polygon<f64>, u8) -> Polygon<f64>) -> Geometry<f64> {
+                    match g {
+                        Geometry::Triangle(t) => Geometry::Triangle(Triangle(t.0, t.2, t.1)),
+                        Geometry::Rect(r) => Geometry::Rect(Rect::new(r.max(), r.min())),
+                        Geometry::Polygon(p) => Geometry::Polygon(pv(p, 1)),
+                        Geometry::MultiPolygon(m) => Geometry::MultiPolygon(MultiPolygon::new(m.0.iter().map(|p| pv(p, 2)).collect())),
+                        Geometry::GeometryCollection(c) => Geometry::GeometryCollection(GeometryCollection::new_from(c.0.iter().map(|x| respell(x, pv)).collect())),
+                        other => other.clone(),
+                    }
+                }
+                out.push(("respelled".into(), G::GeometryCollection(GeometryCollection::new_from(gc.0.iter().map(|x| respell(x, &poly_var)).collect()))));
             }
         }
         // the same coordinates with every zero written as negative zero (0.0 == -0.0: the same point set)
